@@ -118,20 +118,23 @@ impl<T: Qcow2IoOps> Qcow2Dev<T> {
                         self.flush_top_table(&*l1_table).await?;
                         self.call_fsync(0, usize::MAX, 0).await?;
 
-                        self.flush_header_for_l1_table(new_off, l1_entries).await?;
-                        // the old clusters are released below, the header has
-                        // to stop pointing to them first
-                        self.call_fsync(0, usize::MAX, 0).await
+                        self.flush_header_for_l1_table(new_off, l1_entries).await
                     }
                     .await;
                     if let Err(err) = res {
-                        // keep using the old table
+                        // Keep using the old table. Nothing was dirty before
+                        // (flush_mapping() above), and the blocks behind the
+                        // old table's clusters must never be written there.
                         l1_table.set_offset(Some(l1_off));
+                        while l1_table.pop_dirty_blk_idx(None).is_some() {}
                         self.free_clusters(new_off, cnt).await?;
                         return Err(err);
                     }
 
                     l1_table.update_header_entries(l1_entries.try_into().unwrap());
+                    // the old clusters are released now, the header has to
+                    // stop pointing to them first
+                    self.call_fsync(0, usize::MAX, 0).await?;
                     self.free_clusters(l1_off, old_clusters).await?;
                 }
             }
